@@ -10,7 +10,7 @@ import sys
 import time
 from pathlib import Path
 
-from ..common import NPROC, ROOT, Report, Violation, short, tier
+from ..common import NPROC, REPO, ROOT, Report, Violation, short, tier
 
 PROP = "C11"
 HARNESS = ROOT / "vf" / "ch" / "c11_harness.py"
@@ -41,7 +41,7 @@ def run_crosshair(path: Path, fn: str, timeout_s: int, hashseed: str):
     src = path.read_text()
     tree = ast.parse(src)
     line = next(n.body[0].lineno for n in tree.body if isinstance(n, ast.FunctionDef) and n.name == fn)
-    env = dict(os.environ, PYTHONHASHSEED=hashseed, PYTHONPATH=f"{ROOT}:/repo/src")
+    env = dict(os.environ, PYTHONHASHSEED=hashseed, PYTHONPATH=f"{ROOT}:{REPO}/src")
     cmd = [sys.executable, "-m", "crosshair", "check", "--report_all", "--per_condition_timeout", str(timeout_s), "--per_path_timeout", "30", f"{path}:{line}"]
     return subprocess.Popen(cmd, stdout=subprocess.PIPE, stderr=subprocess.STDOUT, text=True, env=env, cwd=str(ROOT))
 
@@ -65,7 +65,7 @@ def parse_cex(text: str):
 
 def replay_native(fn: str, args, hashseed="0"):
     """Run the harness function natively in a fresh interpreter (so the hash seed applies)."""
-    code = f"import sys; sys.path[:0]=['{ROOT}','/repo/src']; from vf.ch import c11_harness as h\ntry:\n    r = h.{fn}(*{args!r})\nexcept Exception as e:\n    print('EXC', type(e).__name__, e); raise SystemExit(1)\nprint('RESULT', r); raise SystemExit(0 if r else 1)"
+    code = f"import sys; sys.path[:0]=['{ROOT}','{REPO}/src']; from vf.ch import c11_harness as h\ntry:\n    r = h.{fn}(*{args!r})\nexcept Exception as e:\n    print('EXC', type(e).__name__, e); raise SystemExit(1)\nprint('RESULT', r); raise SystemExit(0 if r else 1)"
     p = subprocess.run([sys.executable, "-c", code], capture_output=True, text=True, env=dict(os.environ, PYTHONHASHSEED=hashseed))
     return p.returncode != 0, (p.stdout + p.stderr).strip()[-300:]
 
